@@ -74,6 +74,10 @@ func (p *stubPingPong) OnTerminate() {
 	p.impl.OnTerminate()
 }
 func (p *stubPingPong) Receive(msg *net.Message, from bus.Channel) error {
+	// only call and post messages run a method
+	if msg.Header.Type != net.Call && msg.Header.Type != net.Post {
+		return nil
+	}
 	// action dispatch
 	switch msg.Header.Action {
 	case 100:
